@@ -1,6 +1,7 @@
 package rules
 
 import (
+	"go/token"
 	"go/types"
 	"sort"
 	"strings"
@@ -41,7 +42,8 @@ func fieldsReadOf(fn *ssa.Function, p *ssa.Parameter) map[string]bool {
 func c27(r *core.Run) {
 	r.Explanation = "Decided clauses: (R1) field coverage of the contract-update type comparator: every Check…TypeEquality method of stdlib.TypeComparator reads every semantic field of the ast type it compares (e.g. ConstantSizedType: Type and Size; ReferenceType: Type and Authorization; DictionaryType: KeyType and ValueType) — " +
 		"positions, ranges and comments are not semantic; a comparator that skips a field treats different field types as equal and accepts an update that makes stored data unreadable; " +
-		"(R2) rule census: the update validator still reaches its field, nested-declaration, enum-case and conformance checks."
+		"(R2) rule census: the update validator still reaches its field, nested-declaration, enum-case and conformance checks; " +
+		"(R3) checkNestedDeclarations tests every nested declaration against the removed types on every loop iteration; (R4) inside the comparator a reported mismatch returns before any further comparison runs."
 	r.NotDecided = "sufficiency of the update rules for keeping stored data decodable."
 	w := r.W
 	tc := w.Named("stdlib", "TypeComparator")
@@ -110,4 +112,93 @@ func c27(r *core.Run) {
 		}
 	}
 	r.Floor("R2.census", 3)
+
+	// R3 every new nested declaration is tested against the removed types: in checkNestedDeclarations the call of
+	// checkTypeNotRemoved is executed on every iteration of the loop it stands in (it dominates every back edge of that loop),
+	// in particular for declarations that have no predecessor in the old program (a removed type re-declared later)
+	if fn := mustFn(r, "R3.removed", "stdlib", "", "checkNestedDeclarations"); fn != nil {
+		n := 0
+		for _, c := range core.CallsTo(fn, false, named("checkTypeNotRemoved")) {
+			n++
+			cb := c.Block()
+			ok := true
+			loops := 0
+			for _, b := range fn.Blocks {
+				for _, h := range b.Succs {
+					if !h.Dominates(b) || !h.Dominates(cb) {
+						continue // not a back edge, or the call is not inside this loop
+					}
+					// the call must be inside the loop body: the latch is reachable from it
+					if !core.ReachableAfter(c, b.Instrs[len(b.Instrs)-1]) && cb != b {
+						continue
+					}
+					loops++
+					if !cb.Dominates(b) {
+						ok = false
+					}
+				}
+			}
+			r.Check(ok && loops > 0, "R3.removed", "stdlib.checkNestedDeclarations: checkTypeNotRemoved #"+itoa(n)+" runs for every declaration", posOf(c), "the call dominates every back edge of its loop",
+				"an iteration of the declaration loop can continue without the removed-type test (e.g. new declarations are skipped first): a type removed with #removedType can be declared again with another shape, and stored values of the old type are decoded against it")
+		}
+		if n == 0 {
+			r.Undecided("R3.removed", "stdlib.checkNestedDeclarations", "no call of checkTypeNotRemoved")
+		}
+	}
+	r.Floor("R3.removed", 3)
+
+	// R4 comparators stop at the first mismatch: in every Check…Equality method, the non-nil outcome of a nested comparison
+	// leads to a return before any further comparison is made (a later successful comparison must not overwrite the mismatch)
+	isCmp := func(o *types.Func) bool {
+		return o != nil && (o.Name() == "CheckEqual" || strings.HasPrefix(o.Name(), "Check") && strings.HasSuffix(o.Name(), "Equality") || o.Name() == "checkNameEquality")
+	}
+	ncmp := 0
+	for i := 0; i < tc.NumMethods(); i++ {
+		m := tc.Method(i)
+		fn := w.Prog.FuncValue(m)
+		if fn == nil || len(fn.Blocks) == 0 {
+			continue
+		}
+		for _, c := range core.CallsTo(fn, false, isCmp) {
+			errs := core.ErrResults(c)
+			if len(errs) == 0 {
+				continue
+			}
+			e := errs[0]
+			refs := e.Referrers()
+			if refs == nil {
+				continue
+			}
+			for _, ref := range *refs {
+				bo, ok := ref.(*ssa.BinOp)
+				if !ok || (bo.Op != token.NEQ && bo.Op != token.EQL) {
+					continue
+				}
+				brefs := bo.Referrers()
+				if brefs == nil {
+					continue
+				}
+				for _, br := range *brefs {
+					iff, ok := br.(*ssa.If)
+					if !ok {
+						continue
+					}
+					ncmp++
+					// successor taken when the error is non-nil
+					nonNil := iff.Block().Succs[0]
+					if bo.Op == token.EQL {
+						nonNil = iff.Block().Succs[1]
+					}
+					hit := core.ReachUnder(fn, nil, []*ssa.BasicBlock{nonNil}, func(in ssa.Instruction) bool { _, isRet := in.(*ssa.Return); return isRet },
+						func(in ssa.Instruction) bool {
+							cc, isCall := in.(ssa.CallInstruction)
+							return isCall && isCmp(core.Callee(cc))
+						})
+					r.Check(hit == nil, "R4.firstmismatch", core.SSAKey(fn)+" -> "+core.Callee(c).Name()+": mismatch ends the comparison", posOf(c), "the non-nil outcome returns before any further comparison",
+						"after a nested comparison reported a mismatch another comparison can still run before the method returns: a later match overwrites the mismatch and different types compare equal")
+				}
+			}
+		}
+	}
+	r.Floor("R4.firstmismatch", 5)
 }
